@@ -83,7 +83,7 @@ SENDTYPES = [("Cyclic", 1), ("Event", 2), ("None", 0), ("OnEvent", 2), ("cyclicI
 SHARE_PROB = 0.6
 FLOAT_DEFAULTS = [0, 1, 5, -5, -1000, 16777216, 3221225472, -3221225472]
 DESCS = ["", "", "signal comment", "multi word, with comma"]
-VD_FORMATS = ["Val%s%d", "Val %s %d", "V\u00e4l%s%d", "val-%s_%d", "Stop & Go %s%d", "<%s%d>", "it's %s%d", "%s%d \u2713 ok", "{%s%d}", "100%% %s%d"]
+VD_FORMATS = ["Val%s%d", "Val %s %d", "V\u00e4l%s%d", "val-%s_%d", "Stop & Go %s%d", "<%s%d>", "it's %s%d", "%s%d \u2713 ok", "{%s%d}", "100%% %s%d", " lead%s%d", "trail%s%d ", "  two  blanks %s%d  ", "tab\t%s%d"]
 
 
 def derived_rng(rng, tag):
